@@ -80,6 +80,9 @@ func (propC12) Gen(r *Rng, tier string) *World {
 	// further calls on the same Expr, with other bindings: events of earlier
 	// calls are retained while later calls run
 	extraCalls := []int{0, 0, 1, 2}[r.Intn(4)]
+	if r.P(0.01) {
+		extraCalls = r.Range(25, 60) // events of dozens of evaluations retained together
+	}
 	if tier == "thorough" {
 		extraCalls = r.Intn(6)
 	}
